@@ -935,6 +935,37 @@ var ops = []op{
 		s.t.X = pol + Base(s.t.X)
 		return fmt.Sprintf("explicit polarity %s put on %s of %s in %s", pol, Base(s.t.X), s.t.Op, s.where)
 	}},
+	{"polarity-on-payload", "polarity", func(p *Program, r *rand.Rand, ss []site) string {
+		// an explicit polarity on a payload / continuation / bound name position
+		s := pickSite(r, ss, func(s site) bool {
+			switch s.t.Op {
+			case "send", "sel", "cast", "recv", "split", "shift", "fwd":
+				return true
+			}
+			return false
+		})
+		if s == nil {
+			return ""
+		}
+		pol := []string{"+", "-"}[r.Intn(2)]
+		t := s.t
+		switch t.Op {
+		case "send", "recv", "split":
+			if r.Intn(2) == 0 && !IsSelf(t.Y) {
+				t.Y = pol + Base(t.Y)
+			} else if !IsSelf(t.Z) {
+				t.Z = pol + Base(t.Z)
+			} else {
+				t.Y = pol + Base(t.Y)
+			}
+		default:
+			if IsSelf(t.Y) {
+				return ""
+			}
+			t.Y = pol + Base(t.Y)
+		}
+		return fmt.Sprintf("explicit polarity %s on a payload/continuation/binder of %s in %s", pol, t.Op, s.where)
+	}},
 	{"polarity-on-argument", "polarity", func(p *Program, r *rand.Rand, ss []site) string {
 		s := pickSite(r, ss, func(s site) bool { return s.t.Op == "call" && len(s.t.Args) > 0 })
 		if s == nil {
